@@ -318,6 +318,20 @@ def load (c : Cfg) (permit strict : Bool) (m : Scaling) (orig : Bool) (recs : Li
          pdata := partialSlabs recs kept
          direct := isSequential (kept.map (·.1)) }
 
+/-! ### specification predicate used by the truncation theorems (validated against the harness's
+    independent by-label analysis on the `spec` stream) -/
+
+/-- the label set of `r` (records sharing all non-slice strict keys) has every slice 1..max_slices -/
+def complete (c : Cfg) (recs : List Rec) (r : Rec) : Bool :=
+  (sliceRange c.maxSlices).all fun s =>
+    recs.any fun r' => (labelKey c r' == labelKey c r) && (r'.slice == s)
+
+/-- hypotheses H0 (some slice position occurs only in complete label sets) and H1 (some label set is
+    complete) of `truncated_exactly_full_volumes`, as a decidable check -/
+def truncHyps (c : Cfg) (recs : List Rec) : Bool :=
+  ((sliceRange c.maxSlices).any fun s0 => recs.all fun r => r.slice != s0 || complete c recs r) &&
+  recs.any (complete c recs)
+
 /-! ### sliced reads through the proxy (`dataobj[slicer]`) -/
 
 inductive Item
